@@ -28,6 +28,12 @@ LABELS = {
 }
 
 
+# metrics used by the twin / differential workloads (any metric the library accepts is in the quantifier; these include
+# data-dependent ones - seuclidean derives its variances from the rows it is handed - and non-Minkowski ones)
+WIDE_METRICS = ["cityblock", "chebyshev", "euclidean", "sqeuclidean", "cityblock", "euclidean", "seuclidean", "minkowski",
+                "canberra", "braycurtis", "cosine"]
+
+
 def combos(lps=LP_KINDS, nps=NP_KINDS):
     out = []
     for l in lps:
@@ -86,10 +92,9 @@ def gen_np(rs, kind, n_arms=None, with_probs=False):
             for i in idx:
                 probs[int(i)] = 1.0 / k
         return {"kind": "radius", "radius": float(pick(rs, [1.0, 2.0, 3.0, 4.0, 6.0])),
-                "metric": pick(rs, ["cityblock", "chebyshev", "euclidean", "sqeuclidean"]), "probs": probs}
+                "metric": pick(rs, WIDE_METRICS), "probs": probs}
     if kind == "knn":
-        return {"kind": "knn", "k": int(pick(rs, [1, 2, 3, 4])),
-                "metric": pick(rs, ["cityblock", "chebyshev", "euclidean", "sqeuclidean"])}
+        return {"kind": "knn", "k": int(pick(rs, [1, 2, 3, 4])), "metric": pick(rs, WIDE_METRICS)}
     if kind == "lsh":
         probs = None
         if with_probs and n_arms:
